@@ -9,6 +9,7 @@ pub fn register(v: &mut Vec<(&'static str, crate::Harness)>) {
     v.push(("h_c01_attr", h_c01_attr));
     v.push(("h_c01_mixed", h_c01_mixed));
     v.push(("h_c01_ns", h_c01_ns));
+    v.push(("h_c01_nsuri", h_c01_nsuri));
 }
 
 /// serialise `node` (a document), parse the result, compare full forms
@@ -133,4 +134,22 @@ pub fn h_c01_ns() {
         (ns0 == i.none && def0) || (ns1 == i.none && (def1 || def0)),
     );
     roundtrip(&mut xot, doc, "namespace-roundtrip");
+}
+
+/// a namespace name containing any XML Char (it is written as an attribute value)
+pub fn h_c01_nsuri() {
+    let mut xot = Xot::new();
+    let c = xml_string("c", "len", 1, sym::param("N", 2));
+    let mut uri = String::from("u");
+    uri.push_str(&c);
+    let ns = xot.add_namespace(&uri);
+    let default = sym::choose("default", 2) == 1;
+    let p = if default { xot.empty_prefix() } else { xot.add_prefix("p") };
+    let a = xot.add_name_ns("a", ns);
+    let x = xot.add_name("x");
+    let el = xot.new_element(a);
+    xot.set_namespace(el, p, ns);
+    xot.set_attribute(el, x, "v");
+    let doc = xot.new_document_with_element(el).unwrap();
+    roundtrip(&mut xot, doc, "namespace-name-roundtrip");
 }
